@@ -50,6 +50,8 @@ type vfPKI struct {
 	caPEM, srvCert, srvKey string // file paths
 	clientOK, clientRogue  tls.Certificate
 	pool                   *x509.CertPool
+	hostCAPEM              string
+	clientHost             tls.Certificate
 }
 
 func vfMakePKI(dir string) *vfPKI {
@@ -85,7 +87,12 @@ func vfMakePKI(dir string) *vfPKI {
 	_, cliKey, cliDer := mk("client", false, ca, caKey, true)
 	rogueCA, rogueKey, _ := mk("rogue CA", true, nil, nil, false)
 	_, rcKey, rcDer := mk("rogue client", false, rogueCA, rogueKey, true)
-	p := &vfPKI{caPEM: filepath.Join(dir, "ca.pem"), srvCert: filepath.Join(dir, "srv.pem"), srvKey: filepath.Join(dir, "srv.key")}
+	// a CA the HOST trusts (system trust store) but tls_ca_file does not list
+	hostCA, hostKey, hostDer := mk("host trusted CA", true, nil, nil, false)
+	_, hcKey, hcDer := mk("client of host CA", false, hostCA, hostKey, true)
+	p := &vfPKI{caPEM: filepath.Join(dir, "ca.pem"), srvCert: filepath.Join(dir, "srv.pem"), srvKey: filepath.Join(dir, "srv.key"), hostCAPEM: filepath.Join(dir, "host-ca.pem")}
+	_ = os.WriteFile(p.hostCAPEM, pemCert(hostDer), 0o600)
+	p.clientHost, _ = tls.X509KeyPair(pemCert(hcDer), pemKey(hcKey))
 	_ = os.WriteFile(p.caPEM, pemCert(caDer), 0o600)
 	_ = os.WriteFile(p.srvCert, pemCert(srvDer), 0o600)
 	_ = os.WriteFile(p.srvKey, pemKey(srvKey), 0o600)
@@ -165,6 +172,12 @@ func TestVfC13(t *testing.T) {
 	httpSock := filepath.Join(base, "h.sock")
 	grpcSock := filepath.Join(base, "g.sock")
 	pki := vfMakePKI(base)
+	// the process's system trust store = exactly one CA that tls_ca_file does not list
+	// (x509 reads these variables once, at the first use of the system pool)
+	emptyDir := filepath.Join(base, "no-certs")
+	_ = os.MkdirAll(emptyDir, 0o755)
+	_ = os.Setenv("SSL_CERT_FILE", pki.hostCAPEM)
+	_ = os.Setenv("SSL_CERT_DIR", emptyDir)
 	args := []string{"bazel-remote", "--dir", cacheDir, "--max_size", "1", "--http_address", "unix://" + httpSock, "--grpc_address", "unix://" + grpcSock,
 		"--access_log_level", "none"}
 	if assetAPI {
@@ -241,6 +254,7 @@ func TestVfC13(t *testing.T) {
 		creds = []vfCred{
 			{name: "no-cert"},
 			{name: "unverified-cert", cert: &pki.clientRogue},
+			{name: "cert-of-a-ca-the-host-trusts-but-tls_ca_file-does-not-list", cert: &pki.clientHost},
 			{name: "valid-cert", valid: true, cert: &pki.clientOK},
 		}
 	}
@@ -252,7 +266,9 @@ func TestVfC13(t *testing.T) {
 		if useTLS {
 			tr.TLSClientConfig = &tls.Config{RootCAs: pki.pool, ServerName: "localhost"}
 			if c.cert != nil {
-				tr.TLSClientConfig.Certificates = []tls.Certificate{*c.cert}
+				// present the certificate whatever CA names the server announces
+				cc := c.cert
+				tr.TLSClientConfig.GetClientCertificate = func(*tls.CertificateRequestInfo) (*tls.Certificate, error) { return cc, nil }
 			}
 		}
 		return &http.Client{Transport: tr, Timeout: 20 * time.Second}
@@ -345,7 +361,10 @@ func TestVfC13(t *testing.T) {
 						rep.Violate(key+" served without valid credentials", id, nil)
 					}
 				case readOnly && unauthReads:
-					if refused {
+					// a PRESENTED certificate that does not verify fails the TLS handshake as a whole
+					// (VerifyClientCertIfGiven): refusing such a client is never unsafe and nothing
+					// in the statement promises it service
+					if refused && !tlsRefused {
 						rep.Violate(key+" read refused although unauthenticated reads are allowed", id, nil)
 					} else {
 						rep.Nontrivial(key)
@@ -393,7 +412,8 @@ func TestVfC13(t *testing.T) {
 		if useTLS {
 			tc := &tls.Config{RootCAs: pki.pool, ServerName: "localhost"}
 			if c.cert != nil {
-				tc.Certificates = []tls.Certificate{*c.cert}
+				cc := c.cert
+				tc.GetClientCertificate = func(*tls.CertificateRequestInfo) (*tls.Certificate, error) { return cc, nil }
 			}
 			opts = append(opts, grpc.WithTransportCredentials(credentials.NewTLS(tc)))
 		} else {
@@ -510,11 +530,12 @@ func TestVfC13(t *testing.T) {
 			code := status.Code(err)
 			id := fmt.Sprintf("%s: gRPC %s credentials=%s -> %s", cfgName, full, c.name, code)
 			key := fmt.Sprintf("C13 grpc auth=%s unauth_reads=%v metrics=%v %s cred=%s", authMode, unauthReads, metrics, full, c.name)
-			refused := code == codes.Unauthenticated || code == codes.PermissionDenied || (code == codes.Unavailable && useTLS && c.cert != nil && !c.valid)
+			tlsRefused := code == codes.Unavailable && useTLS && c.cert != nil && !c.valid
+			refused := code == codes.Unauthenticated || code == codes.PermissionDenied || tlsRefused
 			rep.Outcome(fmt.Sprintf("grpc %s cred=%s -> %s", full[strings.LastIndex(full, "/")+1:], c.name, code))
 			switch {
 			case authMode == "none" || full == vfHealthCheck:
-				if refused {
+				if refused && !tlsRefused {
 					rep.Violate(key+" refused", id, nil)
 				}
 			case c.valid:
@@ -524,7 +545,7 @@ func TestVfC13(t *testing.T) {
 					rep.Nontrivial(key)
 				}
 			case vfReadOnlyGRPC[full] && unauthReads:
-				if refused {
+				if refused && !tlsRefused {
 					rep.Violate(key+" read refused although unauthenticated reads are allowed", id, nil)
 				} else {
 					rep.Nontrivial(key)
